@@ -43,7 +43,10 @@ def _case(draw):
                 rtol=1e-6 if dtype == "float64" else 1e-4, atol=1e-6 if dtype == "float64" else 1e-4, dense=draw(st.booleans()), cut=draw(st.sampled_from([None, 0.5, 0.3])),
                 qfrac=draw(st.lists(st.floats(0.0, 1.0), min_size=4, max_size=8)), outside=draw(st.sampled_from([0.1, 1.0, 10.0])), itype=draw(st.integers(0, 3)),
                 against=draw(st.sampled_from([False, False, True])), flip_tf=draw(st.sampled_from([False, False, True])),
-                watch_event=draw(st.sampled_from([False, False, True])))
+                watch_event=draw(st.sampled_from([False, False, True])),
+                # after the run and one lookup by time: reset(), the span mirrored about t0 (tf re-declared), a second run with the
+                # same number of steps the other way - the lookups are judged on that second record
+                rerun_mirrored=draw(st.sampled_from([False, False, False, True])))
 
 
 def parts(tier):
@@ -107,6 +110,23 @@ def check(case):
             if isinstance(err.__cause__, de.exception_types.FailedToMeetTolerances) and fam.startswith("implicit"):
                 return [], dict(nontrivial=False, labels=labels + ["reported_failure"])
             return [V("integrate_raised", "{!r} caused by {!r}".format(err, err.__cause__), fam + exc_sig(err), **attrs)], dict(nontrivial=False, labels=labels)
+    if case.get("rerun_mirrored") and not case.get("against") and len(a) >= 2:
+        try:
+            a[np.float64(0.5 * (float(a.t[0]) + float(a.t[-1])))]
+            a[float(a.t[0]):float(a.t[-1])]
+            a.reset()
+            a.tf = mirror
+        except Exception as e:
+            if exc_origin(e)[0] == "harness":
+                raise
+            return [V("time_lookup_raised", "lookup / reset() / tf assignment after the first run raised {!r}".format(e), exc_sig(e), **attrs)], dict(nontrivial=False, labels=labels)
+        err = traj.run_integrate(a, None, step_limit=len(a) + 1500)
+        if err is not None:
+            return [], dict(nontrivial=False, labels=labels + ["second_run_not_completed"])
+        backward = not backward
+        attrs["direction"] = "backward" if backward else "forward"
+        labels.append("reset_and_rerun_the_other_way")
+        case = dict(case, t0=case["t0"], tf=mirror, flip_tf=False)
     if case.get("redundant"):
         # calls made when the system is already at its target change nothing (C13) - in particular not what a lookup returns
         n_before = len(a)
